@@ -17,7 +17,7 @@ from typing import Any, Dict, List, Optional, Tuple
 import numpy as np
 
 from . import astutil as A
-from .model import AnalysisError, ClassInfo, ConstEval, EnumMember, Repo, Unknown, dotted, src
+from .model import AnalysisError, CArray, CTYPES_SCALARS, ClassInfo, ConstEval, EnumMember, Repo, Unknown, dotted, src
 
 # ---------------------------------------------------------------------------
 # checker-side operator semantics
@@ -127,6 +127,34 @@ class Obj:
         return f"{self.cls.name if self.cls else self.kind}({', '.join(f'{k}={v!r}' for k, v in self.fields.items() if k != 'lineno')})"
 
 
+class DynStruct:
+    """a ctypes structure class created while a function runs (`class T(Base): pass; T._fields_ = f` or `type(n, (Base,), {"_fields_": f})`):
+    only its size is ever asked for"""
+    _nqsa_model = True
+
+    def __init__(self, ev, base, fields=None):
+        self._ev, self._base, self._fields_ = ev, base, fields
+
+    def size(self):
+        from . import wire
+        base_fields = wire.struct_fields(self._ev, self._base)
+        own = [tuple(f) + (None,) * (3 - len(f)) for f in (self._fields_ or [])]
+        return wire.layout_fields(self._ev, base_fields + own, wire.struct_pack(self._ev, self._base))[1]
+
+    def __call__(self, *a, **k):
+        return _DynInstance(self)
+
+
+class _DynInstance:
+    _nqsa_model = True
+
+    def __init__(self, cls):
+        self._cls = cls
+
+    def __bytes__(self):
+        return bytes(self._cls.size())
+
+
 def _live(seq):
     """iterate a list by position, looking at the live object each time (what a Python `for` does)"""
     i = 0
@@ -184,6 +212,7 @@ class Scenario:
     externals: Dict[str, Any] = field(default_factory=dict)  # dotted library name -> checker-side semantics for this scenario
     plain_registers: bool = False  # Register(...) builds an ordinary object (name, index) instead of a symbolic transpiler register
     max_depth: int = 0  # call nesting allowed (0: the interpreter's default of 8)
+    ctypes_model: bool = False  # ctypes structures of the repository behave as ctypes makes them behave (nqsa/cmodel.py): truncating stores, bytes(), from_buffer_copy
     strict_text: bool = False  # an f-string whose parts cannot be printed is an analysis error (default: the placeholder "<fstring>", good enough for messages)
     run_constructors: bool = False  # Cls(...) of a repository class runs its __init__ / __post_init__ (default: the keyword arguments become the fields)
 
@@ -282,6 +311,13 @@ class Interp:
         for k in mro[mro.index(owner) + 1:]:
             if name in k.methods:
                 return self.call_function(k.module, k.methods[name], args, kwargs, self_obj=self_obj)
+        if name == "__init__" and self.ev.is_struct(recv) and isinstance(self_obj, Obj) and getattr(self.sc, "ctypes_model", False):
+            from . import cmodel
+            try:
+                cmodel.init(self.ev, self_obj, list(args), dict(kwargs), lambda x_: isinstance(x_, Obj))
+            except cmodel.CTypeError as ex_:
+                raise EvalRaise("TypeError", str(ex_))
+            return None
         if name == "__init__" and self.ev.is_struct(recv) and isinstance(self_obj, Obj):
             from . import wire
             names = [f[0] for f in wire.struct_fields(self.ev, recv)]
@@ -432,6 +468,11 @@ class Interp:
         if isinstance(st, (ast.FunctionDef, ast.AsyncFunctionDef)):
             env[st.name] = ("closure", st, env, m)
             return
+        if isinstance(st, ast.ClassDef) and len(st.bases) == 1 and all(isinstance(b_, ast.Pass) or (isinstance(b_, ast.Expr) and isinstance(b_.value, ast.Constant)) for b_ in st.body):
+            base = self.eval(st.bases[0], env, m)
+            if isinstance(base, tuple) and base[0] == "class" and self.ev.is_struct(base[1]):
+                env[st.name] = DynStruct(self.ev, base[1])
+                return
         if isinstance(st, ast.With):
             self._with(st, 0, env, m)
             return
@@ -569,9 +610,18 @@ class Interp:
             o = self.eval(t.value, env, m)
             if isinstance(o, Obj):
                 name = t.attr
+                if o.cls is not None and getattr(self.sc, "ctypes_model", False) and self.ev.is_struct(o.cls):
+                    from . import cmodel
+                    try:
+                        if cmodel.store(self.ev, o, name, v, lambda x_: isinstance(x_, Obj)):
+                            return
+                    except cmodel.CTypeError as ex_:
+                        raise EvalRaise("TypeError", str(ex_))
                 if o.cls is not None:
                     name = self.repo.property_alias(o.cls, name) or name
                 o.fields[name] = v
+            elif getattr(o, "_nqsa_model", False):
+                setattr(o, t.attr, v)
             else:
                 raise AnalysisError(f"circuit evaluation: attribute store on {o!r}")
         elif isinstance(t, ast.Subscript):
@@ -732,6 +782,15 @@ class Interp:
             return t_ if isinstance(t_, str) else None
         return None
 
+    def class_attr(self, la):
+        """the value of a class-level attribute (la = (defining class, name, default expression)): evaluated once per scenario, so that a
+        mutable class attribute is one shared object for every instance and subclass, as in Python"""
+        store = self.sc.__dict__.setdefault("class_attrs", {})
+        key = (la[0].qualname, la[1])
+        if key not in store:
+            store[key] = self.eval(la[2], {}, la[0].module)
+        return store[key]
+
     def _iterable(self, v):
         """what a for loop / comprehension iterates: an enumeration class yields its members in definition order"""
         if isinstance(v, tuple) and len(v) == 2 and v[0] == "class" and self.ev.is_enum(v[1]):
@@ -767,6 +826,10 @@ class Interp:
         raise AnalysisError("compare op")
 
     def _eq(self, a, b):
+        for x_, y_ in ((a, b), (b, a)):
+            # a ctypes scalar type named in the interpreted code and the same type as the constant evaluator models it
+            if isinstance(x_, tuple) and len(x_) == 2 and x_[0] == "external" and isinstance(x_[1], str) and x_[1].split(".")[-1] in CTYPES_SCALARS and type(y_).__name__ == "CScalar":
+                return CTYPES_SCALARS[x_[1].split(".")[-1]] == y_
         if isinstance(a, EnumMember) and isinstance(b, EnumMember):
             return a.enum == b.enum and a.name == b.name
         if isinstance(a, (RegSym, Obj, Imm)) or isinstance(b, (RegSym, Obj, Imm)):
@@ -785,6 +848,8 @@ class Interp:
         return a == b
 
     def binop(self, op, a, b, node):
+        if isinstance(op, ast.Mult) and isinstance(a, tuple) and len(a) == 2 and a[0] == "external" and a[1].split(".")[-1] in CTYPES_SCALARS and isinstance(b, int):
+            return CArray(CTYPES_SCALARS[a[1].split(".")[-1]], b)  # ctypes.c_uint8 * n
         try:
             if isinstance(op, ast.Add):
                 return a + b
@@ -817,7 +882,7 @@ class Interp:
         raise AnalysisError(f"circuit evaluation: operator in {src(node)[:60]}")
 
     def global_name(self, name, m):
-        if name in ("int", "float", "str", "tuple", "list", "bool", "dict", "set", "frozenset", "bytes"):
+        if name in ("int", "float", "str", "tuple", "list", "bool", "dict", "set", "frozenset", "bytes", "setattr"):
             return ("external", "builtins." + name)
         r = self.repo.resolve(m, name)
         if r is None:
@@ -894,7 +959,10 @@ class Interp:
                     if r is None:
                         la = self.repo.lookup_attr(o.cls, attr)
                         if la is not None and la[2] is not None:
-                            return self.eval(la[2], {}, la[0].module)  # a class attribute read through the instance
+                            return self.class_attr((la[0], attr, la[2]))  # a class attribute read through the instance
+                    if r is None and attr not in self.sc.overrides and attr not in getattr(self.sc, "method_overrides", {}) and attr not in ("get_reg_value", "get_unused_register"):
+                        # neither a field of this scenario's object, nor a method, property or class attribute of its class
+                        raise AnalysisError(f"circuit evaluation: attribute {attr} of the modelled {o.cls.name} object is not part of the scenario")
                 return ("boundmethod", o, attr)
             if o.kind in ("qubit", "future"):
                 if attr in ("_conn", "connection"):
@@ -918,6 +986,13 @@ class Interp:
                     if any(getattr(d, "id", getattr(d, "attr", None)) == "property" for d in r[1].decorator_list):
                         return self.call_function(r[0].module, r[1], [], {}, self_obj=o)  # a computed property is computed
                     return ("boundmethod", o, attr)
+                if attr == "_fields_" and self.ev.is_struct(o.cls):
+                    return self.getattr(("class", o.cls), attr)
+                la = self.repo.lookup_attr(o.cls, attr)
+                if la is not None and la[2] is not None and not self.repo.is_dataclass(la[0]):
+                    return self.class_attr((la[0], attr, la[2]))
+                if getattr(self.sc, "ctypes_model", False) and self.ev.is_struct(o.cls):
+                    raise EvalRaise("AttributeError", f"'{o.cls.name}' object has no attribute '{attr}'")
             raise AnalysisError(f"circuit evaluation: attribute {attr} of {o!r}")
         if isinstance(o, Imm):
             if attr == "value":
@@ -933,11 +1008,29 @@ class Interp:
             return ("external", o[1] + "." + attr)
         if isinstance(o, tuple) and o and o[0] == "class":
             c = o[1]
+            if attr in ("__name__", "__qualname__"):
+                return c.name
+            if attr == "_fields_" and self.ev.is_struct(c):
+                la = self.repo.lookup_attr(c, "_fields_")
+                if la is not None and la[2] is not None:
+                    # the field list of a ctypes structure as the constant evaluator reads it: (name, type[, bits]) with modelled types
+                    return [tuple(f_) for f_ in self.ev.eval(la[2], la[0].module)]
+            if attr == "from_buffer_copy" and getattr(self.sc, "ctypes_model", False) and self.ev.is_struct(c):
+                from . import cmodel
+
+                def _decode(raw, offset=0, c=c):
+                    try:
+                        return cmodel.decode(self.ev, c, bytes(raw)[offset:], lambda k_: Obj(k_, {}))
+                    except ValueError as ex_:
+                        raise EvalRaise("ValueError", str(ex_))
+                    except TypeError as ex_:
+                        raise EvalRaise("TypeError", str(ex_))
+                return _decode
             if self.ev.is_enum(c):
                 return self.ev._class_attr(c, attr)
             la = self.repo.lookup_attr(c, attr)
             if la is not None and la[2] is not None:
-                return self.eval(la[2], {}, la[0].module)
+                return self.class_attr((la[0], attr, la[2]))
             if self.repo.lookup(c, attr) is not None:
                 return ("classmethod", c, attr)
         if isinstance(o, tuple) and o and o[0] == "module":
@@ -948,7 +1041,7 @@ class Interp:
             return o.T
         if isinstance(o, RegSym) and attr == "name":
             return ("external", "RegisterName.Q")
-        if isinstance(o, (str, list, set, dict)) and not attr.startswith("_") and hasattr(o, attr):
+        if isinstance(o, (str, list, set, dict, bytes, bytearray, tuple, frozenset)) and not attr.startswith("_") and hasattr(o, attr) and not (isinstance(o, tuple) and o and isinstance(o[0], str) and o[0] in ("class", "func", "external", "boundmethod", "closure", "lambda", "partial", "classmethod", "module")):
             return getattr(o, attr)
         if o is None or isinstance(o, (bool, int, float)):
             raise EvalRaise("AttributeError", f"{type(o).__name__} has no attribute {attr} ({src(node)[:50] if node is not None else ''})")
@@ -985,7 +1078,7 @@ class Interp:
         fname = dotted(e.func)
         # builtins
         if fname in ("len", "range", "list", "tuple", "int", "float", "abs", "min", "max", "sum", "enumerate", "zip", "reversed", "sorted", "str", "bool", "all", "any", "set", "slice",
-                     "divmod", "round", "dict", "frozenset", "bytes", "pow") and fname not in env:
+                     "divmod", "round", "dict", "frozenset", "bytes", "pow", "map", "filter", "iter", "format", "repr", "callable", "print") and fname not in env:
             args = []
             for a in e.args:
                 if isinstance(a, ast.Starred):
@@ -998,8 +1091,39 @@ class Interp:
             if fname == "len" and len(args) == 1 and isinstance(args[0], Obj) and args[0].cls is not None and self.repo.lookup(args[0].cls, "__len__") is not None:
                 r_ = self.repo.lookup(args[0].cls, "__len__")
                 return self.call_function(r_[0].module, r_[1], [], {}, self_obj=args[0])
+            if fname == "bytes" and len(args) == 1 and isinstance(args[0], Obj) and args[0].kind == "cscalar" and "_ctype" in args[0].fields:
+                t_ = args[0].fields["_ctype"]
+                return (args[0].fields["value"] & ((1 << (8 * t_.size)) - 1)).to_bytes(t_.size, "little")
+            if fname == "bytes" and len(args) == 1 and isinstance(args[0], Obj) and args[0].cls is not None:
+                if getattr(self.sc, "ctypes_model", False) and self.ev.is_struct(args[0].cls):
+                    from . import cmodel
+                    return cmodel.encode(self.ev, args[0])
+                r_ = self.repo.lookup(args[0].cls, "__bytes__")
+                if r_ is not None:
+                    return self.call_function(r_[0].module, r_[1], [], {}, self_obj=args[0])
             if fname == "enumerate" and args and isinstance(args[0], list):
                 return _LiveEnumerate(args[0], args[1] if len(args) > 1 else 0)
+            if fname in ("map", "filter") and len(args) >= 2:
+                fn_ = args[0]
+                call_ = (lambda *xs: self.apply(fn_, list(xs), {}, e, m)) if fn_ is not None else (lambda x_: x_)
+                if fname == "map":
+                    return [call_(*xs) for xs in zip(*[self._iterable(a_) for a_ in args[1:]])]
+                return [x_ for x_ in self._iterable(args[1]) if self.truth(call_(x_))]
+            if fname == "print":
+                return None
+            if fname == "iter" and len(args) == 1:
+                return list(self._iterable(args[0]))  # an iterator is modelled by the list of what it will yield (consumed in order, once, by the callers the rules meet)
+            if fname == "format" and len(args) in (1, 2):
+                t_ = self._to_str(args[0])
+                if len(args) == 2 and args[1] != "":
+                    return format(args[0], args[1])
+                if t_ is None:
+                    raise AnalysisError(f"circuit evaluation: format() of {type(args[0]).__name__}")
+                return t_
+            if fname == "callable" and len(args) == 1:
+                return callable(args[0]) or (isinstance(args[0], tuple) and bool(args[0]) and args[0][0] in ("func", "boundmethod", "closure", "lambda", "class", "classmethod", "partial", "external"))
+            if fname == "repr" and len(args) == 1 and isinstance(args[0], (int, str, float, type(None), tuple, list)):
+                return repr(args[0])
             f = {"len": len, "range": lambda *a: list(range(*a)), "list": list, "tuple": tuple, "int": int, "float": float, "abs": abs, "min": min, "max": max,
                  "sum": sum, "enumerate": lambda x, *a: list(enumerate(x, *a)), "zip": lambda *a: list(zip(*a)), "reversed": lambda x: list(reversed(x)),
                  "sorted": sorted, "str": str, "bool": bool, "all": all, "any": any, "set": set, "slice": slice,
@@ -1009,7 +1133,7 @@ class Interp:
                 if k.arg is None:
                     raise AnalysisError(f"circuit evaluation: ** in a call of {fname}")
                 v = self.eval(k.value, env, m)
-                if isinstance(v, tuple) and v and v[0] in ("lambda", "closure", "func", "boundmethod"):
+                if isinstance(v, tuple) and v and v[0] in ("lambda", "closure", "func", "boundmethod", "partial", "classmethod", "class"):
                     v = (lambda fv: (lambda *a, **k_: self.apply(fv, list(a), k_, e, m)))(v)
                 kw[k.arg] = v
             return f(*args, **kw)
@@ -1043,6 +1167,24 @@ class Interp:
                     return self.eval(e.args[2], env, m)
                 raise
             return True if fname == "hasattr" else v
+        if fname == "type" and len(e.args) == 3 and "type" not in env:
+            bases = self.eval(e.args[1], env, m)
+            ns = self.eval(e.args[2], env, m)
+            if isinstance(bases, tuple) and len(bases) == 1 and isinstance(bases[0], tuple) and bases[0][0] == "class" and self.ev.is_struct(bases[0][1]) and isinstance(ns, dict) and set(ns) <= {"_fields_"}:
+                return DynStruct(self.ev, bases[0][1], ns.get("_fields_"))
+            raise AnalysisError("circuit evaluation: type(name, bases, namespace) of something other than a ctypes structure")
+        if fname in ("ctypes.sizeof", "sizeof") and len(e.args) == 1:
+            x = self.eval(e.args[0], env, m)
+            if isinstance(x, DynStruct):
+                return x.size()
+            if isinstance(x, _DynInstance):
+                return x._cls.size()
+            from . import wire
+            if isinstance(x, tuple) and x and x[0] == "class":
+                return wire.layout(self.ev, x[1])[1]
+            if isinstance(x, tuple) and x and x[0] == "external" and x[1].split(".")[-1] in CTYPES_SCALARS:
+                return CTYPES_SCALARS[x[1].split(".")[-1]].size
+            return wire.sizeof(self.ev, x)
         if fname == "isinstance":
             o = self.eval(e.args[0], env, m)
             t = self.eval(e.args[1], env, m)
@@ -1158,6 +1300,9 @@ class Interp:
                 except _Return as r:
                     return r.value
                 return None
+            if kind == "partial":
+                _, pf, pargs, pkw = f
+                return self.apply(pf, list(pargs) + list(args), dict(pkw, **kwargs), node, m)
             if kind == "lambda":
                 _, lam, cenv, cm = f
                 env2 = dict(cenv)
@@ -1183,6 +1328,47 @@ class Interp:
                     return self.sc.externals[name](*args, **kwargs)  # a library call the rule models for this scenario (clock, sleep, ...)
                 if name == "collections.defaultdict":
                     return self._defaultdict(*args, **kwargs)
+                if name.startswith("ctypes.") and name.split(".")[1] in CTYPES_SCALARS and getattr(self.sc, "ctypes_model", False):
+                    from . import cmodel
+                    t_ = CTYPES_SCALARS[name.split(".")[1]]
+                    try:
+                        if name.endswith(".from_buffer_copy") and args:
+                            raw_ = bytes(args[0])
+                            if len(raw_) < t_.size:
+                                raise EvalRaise("ValueError", f"Buffer size too small ({len(raw_)} instead of at least {t_.size} bytes)")
+                            return Obj(None, {"value": cmodel.wrap(int.from_bytes(raw_[:t_.size], "little"), 8 * t_.size, t_.signed)}, "cscalar")
+                        if name.count(".") == 1:
+                            return Obj(None, {"value": cmodel.wrap(args[0] if args else 0, 8 * t_.size, t_.signed), "_ctype": t_}, "cscalar")
+                    except cmodel.CTypeError as ex_:
+                        raise EvalRaise("TypeError", str(ex_))
+                if name == "functools.partial" and args:
+                    return ("partial", args[0], list(args[1:]), dict(kwargs))
+                if name == "itertools.chain":
+                    return [x_ for a_ in args for x_ in self._iterable(a_)]
+                if name == "itertools.chain.from_iterable" and len(args) == 1:
+                    return [x_ for a_ in self._iterable(args[0]) for x_ in self._iterable(a_)]
+                if name == "itertools.repeat" and args:
+                    return [args[0]] * (args[1] if len(args) > 1 else 65)
+                if name == "itertools.starmap" and len(args) == 2:
+                    return [self.apply(args[0], list(xs), {}, node, m) for xs in self._iterable(args[1])]
+                if name == "itertools.islice" and len(args) >= 2:
+                    return list(self._iterable(args[0]))[slice(*args[1:])]
+                if name == "operator.attrgetter" and len(args) == 1 and isinstance(args[0], str) and not kwargs:
+                    return (lambda a_: (lambda o_: self.getattr(o_, a_)))(args[0])
+                if name == "operator.itemgetter" and len(args) == 1:
+                    return (lambda k_: (lambda o_: o_[self._hashable(k_)] if isinstance(o_, dict) else o_[k_]))(args[0])
+                if name == "operator.methodcaller" and args and isinstance(args[0], str):
+                    return (lambda n_, a2, k2: (lambda o_: self.apply(self.getattr(o_, n_), list(a2), dict(k2), node, m)))(args[0], args[1:], kwargs)
+                if name == "operator.setitem" and len(args) == 3:
+                    args[0][self._hashable(args[1]) if isinstance(args[0], dict) else args[1]] = args[2]
+                    return None
+                if name == "operator.getitem" and len(args) == 2:
+                    return args[0][self._hashable(args[1]) if isinstance(args[0], dict) else args[1]]
+                if name == "operator.contains" and len(args) == 2:
+                    return self.compare(ast.In(), args[1], args[0])
+                if name in ("builtins.setattr",) and len(args) == 3 and isinstance(args[0], Obj):
+                    args[0].fields[args[1]] = args[2]
+                    return None
                 if name in self.EXTERNAL:
                     return self.EXTERNAL[name](*args, **kwargs)
                 if name.endswith("get_is_using_hardware"):
@@ -1191,6 +1377,15 @@ class Interp:
         if callable(f):
             return f(*args, **kwargs)
         raise AnalysisError(f"circuit evaluation: call of {f!r} ({src(node)[:50]})")
+
+    def _receiver(self, fn, o):
+        """what a method called through the instance o receives first: the instance, its class for a classmethod, nothing for a staticmethod"""
+        decs = {(dotted(d_) or "").split(".")[-1] for d_ in fn.decorator_list}
+        if "classmethod" in decs and isinstance(o, Obj) and o.cls is not None:
+            return ("class", o.cls)
+        if "staticmethod" in decs:
+            return None
+        return o
 
     def construct(self, c: ClassInfo, args, kwargs, node):
         if c.name == "Qubit" and c.module.name.endswith("sdk.qubit"):
@@ -1210,7 +1405,21 @@ class Interp:
                 if mv == v:
                     return EnumMember(c.qualname, k, mv)
             raise EvalRaise("ValueError", "enum")
-        if getattr(self.sc, "run_constructors", False) and not self.repo.is_dataclass(c):
+        if getattr(self.sc, "ctypes_model", False) and self.ev.is_struct(c):
+            from . import cmodel
+            o = cmodel.new_struct(self.ev, c, lambda k_: Obj(k_, {}))
+            r = self.repo.lookup(c, "__init__")
+            try:
+                if r is not None:
+                    self.call_function(r[0].module, r[1], list(args), dict(kwargs), self_obj=o)
+                else:
+                    cmodel.init(self.ev, o, list(args), dict(kwargs), lambda x_: isinstance(x_, Obj))
+            except cmodel.CTypeError as ex_:
+                raise EvalRaise("TypeError", str(ex_))
+            return o
+        from . import normalise as _N
+        helper_cls = c.name.startswith("_") and f"{c.name}" not in set(_N.known_names().get(c.module.name, [])) and not self.repo.is_dataclass(c) and not self.ev.is_struct(c)
+        if (getattr(self.sc, "run_constructors", False) or helper_cls) and not self.repo.is_dataclass(c):
             r = self.repo.lookup(c, "__init__")
             if r is not None:
                 o = Obj(c, {})
@@ -1250,7 +1459,7 @@ class Interp:
             r = self.repo.lookup(o.cls, name)
             if r is None:
                 raise AnalysisError(f"circuit evaluation: method {name} not found")
-            return self.call_function(r[0].module, r[1], args, kwargs, self_obj=o)
+            return self.call_function(r[0].module, r[1], args, kwargs, self_obj=self._receiver(r[1], o))
         if o.kind == "qubit":
             self.sc.recorded.append((name, o, args, kwargs))
             if name == "measure":
@@ -1268,8 +1477,8 @@ class Interp:
                 return self.sc.overrides[name](*args, **kwargs)
             r = self.repo.lookup(o.cls, name)
             if r is not None:
-                return self.call_function(r[0].module, r[1], args, kwargs, self_obj=o)
-        raise AnalysisError(f"circuit evaluation: method {name} of {o!r}")
+                return self.call_function(r[0].module, r[1], args, kwargs, self_obj=self._receiver(r[1], o))
+        raise AnalysisError(f"circuit evaluation: method {name} of {str(o)[:80]}")
 
 
 def object_from_init(repo, cls, overrides=None, kind="obj"):
